@@ -266,6 +266,9 @@ impl Zone {
         }
 
         if other.soa.is_some() {
+            // the other zone brings its own SOA RR: drop ours so that
+            // the merged zone has exactly one
+            self.records.this.remove(&RecordType::SOA);
             self.soa = other.soa;
         }
 
@@ -478,6 +481,8 @@ impl ZoneRecords {
         if let Some(other_wildcards) = other.wildcards {
             if let Some(my_wildcards) = self.wildcards.as_mut() {
                 merge_zrs_helper(my_wildcards, other_wildcards);
+            } else {
+                self.wildcards = Some(other_wildcards);
             }
         }
 
